@@ -13,7 +13,8 @@
 From SV Require Import Model.Rows Model.SplitArray Model.Chunk Model.Rechunker Model.Network
      Model.Mailbox Proof.MailboxInOrder Model.PluginIter Model.NetworkIter Proof.PluginIterStair
      Proof.RechunkerProof Proof.NetworkProof Proof.NetworkGraphProof Proof.NetworkLoopProof Proof.NetworkDownProof
-     Proof.NetworkIterProof Proof.NetworkChannelProof.
+     Proof.NetworkIterProof Proof.NetworkChannelProof Proof.NetworkFullProof Model.MailboxNet Proof.NetworkNetProof.
+From SV Require Proof.NetworkOverlapProof.
 
 (* Plugin.iter with one dependency hands do_compute exactly the dependency's chunks one by one *)
 Theorem C01_single_dependency_iter_is_identity : forall dt run cs s e,
@@ -81,9 +82,13 @@ Theorem C01_results_chunking_independent_partial :
      chunking_of dt1 rn R1 0 T s1 -> chunking_of dt2 rn R2 0 T s2 -> align_pre R1 R2 ->
      exists calls, align bs s1 s2 = Ok calls /\ aligned R1 R2 0 T calls /\
                    ends_nt T (map (fun p => cend (fst p)) calls)) ->
-  forall T src given g target,
-  graph_ok align_pre rn T src given [] g ->
-  exists env, eval_graph align given [] g = Ok env /\
+  forall (ovl : ovl_t) (ovl_pre : (list row -> list row) -> Z -> Z -> list row -> Prop),
+  (forall m f wt wl wr sw dt R T cs,
+     o_run m = rn -> chunking_core dt rn R 0 T cs -> ovl_pre f wl wr R ->
+     exists out, ovl m f wt wl wr sw cs = Ok out /\ chunking_core (o_dtype m) rn (f R) 0 T out) ->
+  forall T src (nt : Z -> Prop) given g target,
+  graph_ok align_pre rn ovl_pre T src nt given [] g ->
+  exists env, eval_graph_x ovl align given [] g = Ok env /\
     match lookup target env with
     | Some cs => exists R, lookup target (eval_whole src [] g) = Some R /\ tiles R 0 T cs
     | None => lookup target (eval_whole src [] g) = None
@@ -110,20 +115,41 @@ Theorem C01_iter_alignment_from_C08 : forall rn bs dt1 dt2 R1 R2 T s1 s2,
 Proof. exact align_iter_ok. Qed.
 Print Assumptions C01_iter_alignment_from_C08.
 
-(* results_chunking_independent, closed: Plugin.iter itself aligns the two-dependency nodes; no alignment
-   hypothesis is left.  For every topologically ordered graph of local (row-wise, filter, cut, each output of a
-   multi-output plugin), exhaust, down-chunking, same-kind-merge and loop nodes whose two-dependency nodes satisfy
-   iter_pre on their whole-run inputs (graph_ok), every tight chunking without a zero-duration chunk kept back at
-   the end of every source and of every stored data type (`given`): evaluation succeeds and the stream of every
-   data type has exactly the rows of the whole-run evaluation and tiles the run. *)
-Theorem C01_results_chunking_independent : forall rn T src given g target,
-  graph_ok iter_pre rn T src given [] g ->
-  exists env, eval_graph align_iter given [] g = Ok env /\
+(* kind_overlap_chunking_independent, from C09's main theorem (C09_overlap_equals_whole_run): the stream of an
+   overlap-window node is OverlapWindowPlugin.iter itself (ovl_c09 = C09's ow_iter, Model/NetworkIter.v); for every
+   computation f that is window-local within (2 wl, 2 wr), disjoint sorted positive-length input rows R (dsp) and
+   EVERY tight well-formed contiguous chunking of R, the output stream is a tight well-formed contiguous chunking of
+   f R with one data type and run id.  (Nothing is claimed about a zero-duration chunk at the end of the output:
+   chunking_core, not chunking_of.) *)
+Theorem C01_kind_overlap_chunking_independent : forall rn m f wt wl wr sw dt R T cs,
+  o_run m = rn -> chunking_core dt rn R 0 T cs -> NetworkOverlapProof.ovl_pre f wl wr R ->
+  exists out, ovl_c09 m f wt wl wr sw cs = Ok out /\ chunking_core (o_dtype m) rn (f R) 0 T out.
+Proof. exact NetworkOverlapProof.ovl_c09_ok. Qed.
+Print Assumptions C01_kind_overlap_chunking_independent.
+
+(* results_chunking_independent, CLOSED: Plugin.iter itself (C08) aligns the two-dependency nodes and
+   OverlapWindowPlugin.iter itself (C09) runs the overlap-window nodes; no hypothesis about either is left.
+   For every topologically ordered graph of local (row-wise, filter, cut, each output of a multi-output plugin),
+   exhaust, down-chunking, overlap-window, same-kind-merge and loop nodes such that (graph_ok)
+     - every two-dependency node's whole-run inputs satisfy iter_pre (no zero-length rows, staircase below the pass
+       limit) and, for a same-kind merge, have equal row intervals,
+     - every overlap-window node's computation is window-local within twice its window and its whole-run input is
+       disjoint, sorted, of positive length (ovl_pre),
+     - `nt` (the data types known to keep no zero-duration chunk back at the end) holds of both inputs of every
+       two-dependency node, propagates backwards through one-chunk-per-call nodes, and is not claimed of
+       overlap-window outputs,
+     - every given stream (source or stored data type) is a tight well-formed contiguous chunking of its whole-run
+       rows with one run id (and without a zero-duration chunk at the end where nt is claimed),
+   evaluation succeeds and the stream of every data type has exactly the rows of the whole-run evaluation and tiles
+   the run. *)
+Theorem C01_results_chunking_independent : forall rn T src (nt : Z -> Prop) given g target,
+  graph_ok iter_pre rn NetworkOverlapProof.ovl_pre T src nt given [] g ->
+  exists env, eval_graph_x ovl_c09 align_iter given [] g = Ok env /\
     match lookup target env with
     | Some cs => exists R, lookup target (eval_whole src [] g) = Some R /\ tiles R 0 T cs
     | None => lookup target (eval_whole src [] g) = None
     end.
-Proof. exact results_chunking_independent_iter. Qed.
+Proof. exact results_chunking_independent_full. Qed.
 Print Assumptions C01_results_chunking_independent.
 
 (* target_stream_tiles_run: what `tiles` gives for the chunks get_iter yields: continuity_check passes, the
@@ -177,24 +203,52 @@ Theorem C01_stage_determinism_channel_futures : forall cfg cs nfut drives sched 
 Proof. exact channel_complete_futures. Qed.
 Print Assumptions C01_stage_determinism_channel_futures.
 
+(* stage_determinism, network level, on C13's network model (Model/MailboxNet.v: C05's mailbox transition system
+   composed into networks with worker threads -- loaders, plugins, dividers -- savers, discarders and the consumer;
+   any wiring).  MailboxNet fixes in advance what each mailbox's sender will send (its source list, the "prophecy");
+   here that is the stream of the data type, e.g. the one eval_graph computes, message number i carrying chunk
+   number i.  Then for EVERY network, EVERY schedule, EVERY reachable network state: every subscriber of every
+   mailbox has received a prefix of that stream in order, exactly the stream once its iteration ended, and (without
+   kills) exactly the stream when all threads of the mailbox have finished. *)
+Theorem C01_stage_determinism_network : forall streams drives killer nfut n0 sched n,
+  (forall d cfg st, nth_error (n_boxes n0) d = Some (cfg, st) ->
+     st = init cfg (drives d) (source_of (encode (streams d))) (killer d) (nfut d)) ->
+  nrun n0 sched = Some n ->
+  forall d cfg st, nth_error (n_boxes n) d = Some (cfg, st) ->
+  forall i r, nth_error (rds st) i = Some r ->
+    (exists rest, decode (streams d) (r_log r) ++ rest = streams d) /\
+    (r_pc r = RDone -> decode (streams d) (r_log r) = streams d).
+Proof. exact network_delivery. Qed.
+Print Assumptions C01_stage_determinism_network.
+
+Theorem C01_stage_determinism_network_complete : forall streams drives nfut n0 sched n,
+  (forall d cfg st, nth_error (n_boxes n0) d = Some (cfg, st) ->
+     drives d <> [] /\ st = init cfg (drives d) (source_of (encode (streams d))) None (nfut d)) ->
+  nrun n0 sched = Some n ->
+  forall d cfg st, nth_error (n_boxes n) d = Some (cfg, st) -> all_terminal st = true ->
+  forall i r, nth_error (rds st) i = Some r -> decode (streams d) (r_log r) = streams d.
+Proof. exact network_complete. Qed.
+Print Assumptions C01_stage_determinism_network_complete.
+
 (* ---------------------------------------------------------------------------------------------------------- *)
 (* full statements that are not proved here                                                                     *)
 (* ---------------------------------------------------------------------------------------------------------- *)
 
-(* the overlap-window kind is property C09's model (overlap_equals_whole_run, overlap_output_contiguous); in C01 it
-   is covered by the correspondence (oracles i, ii, iv); nodes with three or more dependencies likewise *)
+(* nodes with three or more dependencies: the C08 side is already k-ary (the proof of C01_iter_alignment_from_C08
+   uses only theorems stated for any number of dependencies); what is binary is C01's own vocabulary: the node
+   kind CPair, calls2 = list of PAIRS of chunks, rows1 / rows2, pair_comp with h : rows -> rows -> rows, the merge
+   instance over map2 and the loop instance over one things kind.  A k-ary version needs calls as lists of chunks,
+   computations over list (list row), a k-ary zip for the merge instance and a loop instance over several things
+   kinds; not done.  Such nodes are covered by the correspondence only. *)
 
-(* stage_determinism at the level of the whole network.  What is proved above is the channel: every subscriber of ONE
-   mailbox reads exactly what its producer sent, for every schedule.  Missing for the network statement below:
-   (1) a transition system that composes the mailbox LTS of C05 into a network whose stage threads read from
-       upstream mailboxes and send what Plugin.iter / do_compute make of it (DESIGN's Model/MailboxNet.v of C13 is
-       not on main), so that "a stage is a deterministic function of the sequences it reads" can be composed with
-       the channel theorem along the topological order;
-   (2) for the single-thread processor, C06's PostOffice model (C06_single_thread_no_failure_complete: the caller
-       receives exactly the whole-run message sequence, for arbitrary DAGs) has 1:1 stages only (one message from
-       each dependency, one out), not stages that consume several chunks per call (Plugin.iter over unaligned
-       inputs, exhaust) or emit several (down-chunking).
-   `delivered sched d reader` stands for the sequence the network delivers. *)
+(* stage_determinism with the stages' computations inside the transition system.  Proved above: every channel of
+   every network delivers exactly what its sender sends, for every schedule.  MailboxNet's stages are 1:1 and what
+   they send is a prophecy, not computed from what they read; so the fixpoint "every stage reads exactly its
+   dependencies' eval_graph streams (channel theorem), run_node is a function of what is read, hence it sends its own
+   eval_graph stream" cannot be closed INSIDE the model: that needs a network model whose senders apply
+   Plugin.iter / do_compute to the sequences their subscriptions delivered (stages that consume several chunks per
+   call or emit several are outside MailboxNet and outside C06's PostOffice model alike).
+   `delivered sched d reader` stands for the sequence such a network delivers. *)
 Definition C01_full_stage_determinism : Prop :=
   forall (schedule : Type) (terminating : schedule -> Prop)
          (delivered : schedule -> Z -> Z -> stream)      (* schedule -> data type -> reader -> what it read *)
